@@ -263,6 +263,15 @@ Section Alg.
     intros H. unfold copy_col_as_vec, get_col. rewrite H, Nat.min_id.
     rewrite <- H, skipn_all, app_nil_r. reflexivity.
   Qed.
+
+  (* ---------- add/sub/mul/div_element_mut: an update of one cell ---------- *)
+  Lemma upd_element_set f m r c : upd_element K f m r c = set m r c (f (get m r c)).
+  Proof. reflexivity. Qed.
+  Lemma upd_element_spec f m r c : wf m -> r < nrows m -> c < ncols m ->
+    exists m', upd_element K f m r c = Some m' /\ nrows m' = nrows m /\ ncols m' = ncols m /\ wf m' /\
+      forall r' c', r' < nrows m -> c' < ncols m ->
+        get m' r' c' = if Nat.eqb r' r && Nat.eqb c' c then f (get m r c) else get m r' c'.
+  Proof. intros Hwf Hr Hc. rewrite upd_element_set. apply (set_spec K); assumption. Qed.
 End Alg.
 
 (* ---------- over the reals ---------- *)
@@ -273,6 +282,27 @@ Lemma approximate_eq_R a b err : nrows a = nrows b -> ncols a = ncols b ->
 Proof.
   intros H1 H2. rewrite (approximate_eq_true_iff ROps a b err H1 H2).
   split; intros H r c Hr Hc; specialize (H r c Hr Hc); cbn [ROps oltb oabs osub] in *; apply Rltb_false; exact H.
+Qed.
+
+
+(* exact equality (PartialEq): entrywise within eps on the logical view *)
+Lemma eq_dm_R a b eps : wf a -> wf b -> nrows a = nrows b -> ncols a = ncols b ->
+  (eq_dm ROps eps a b = true <->
+   forall r c, r < nrows a -> c < ncols a -> (Rabs (Model.get ROps a r c - Model.get ROps b r c) <= eps)%R).
+Proof.
+  intros Ha Hb H1 H2. rewrite (eq_dm_true_iff ROps eps a b Ha Hb H1 H2). split.
+  - intros H r c Hr Hc. specialize (H (c * nrows a + r) ltac:(nia)).
+    cbn [ROps oltb oabs osub o0] in H. apply Rltb_false in H.
+    unfold Model.get. rewrite <- H1. cbn [ROps o0]. exact H.
+  - intros H i Hi.
+    assert (Hn : nrows a <> 0) by (intros E; rewrite E in Hi; lia).
+    pose proof (Nat.div_mod i (nrows a) Hn) as Hdm.
+    pose proof (Nat.mod_upper_bound i (nrows a) Hn) as Hmod.
+    assert (Hdiv : i / nrows a < ncols a) by (apply Nat.div_lt_upper_bound; lia).
+    specialize (H (i mod nrows a) (i / nrows a) Hmod Hdiv).
+    unfold Model.get in H. rewrite <- H1 in H.
+    replace (i / nrows a * nrows a + i mod nrows a) with i in H by lia.
+    cbn [ROps oltb oabs osub o0] in *. apply Rltb_false. exact H.
 Qed.
 
 (* ---------- satisfiability: a concrete instance over nat ---------- *)
